@@ -12,6 +12,10 @@ CL = {
          "floats as exact reals; K=1 (quick) / K<=3 (thorough); LeakyTanh constructor constants validated numerically (1e-12) for 5 values of max_val; Permute enumerated over all permutations of <=4 elements"),
  "C15": (E2, "the real fit_to_data / train_val_split / get_batches / _add_batch run on fake arrays whose rows are symbolic tags; jax.random.permutation is an uninterpreted bijection per (key, length); z3 proves partition, x/condition pairing, at-most-once use, trailing-remainder-only skipping, no validation leakage, fresh keys and reproducibility for ALL permutations; failures replayed on the real fit_to_data with host callbacks",
          "sizes enumerated (n<=8 quick, n<=14 thorough); contract of jr.permutation / jr.split as stated; list-backed fake arrays"),
+ "C10": (E1, "the cond/body jaxprs of the two while loops of the real _bisection_search are executed ONCE from an arbitrary symbolic state with the function argument bound to an uninterpreted strictly increasing F (F(r)=0): inductive step, exit => |mid-r|<=tol, adaptation invariant + ranking function, glue between loops, returned midpoint; autoregressive driver inspected symbolically; bounded full unrolling cross-check",
+         "induction over iteration counts / coordinates stated in DESIGN; floats as reals (tolerances below float resolution excluded); lower<upper precondition"),
+ "C11": (E1, "raw (unconstrained) parameters are the symbolic inputs and the constraint functions (softplus, softmax/cumsum, where-masks, weight norm, log_softmax, get_act_scale) are in the traced jaxpr: z3 proves positivity / ordering / normalisation / norm / invertibility for every real raw value, constructor round trips for all valid arguments, and that the recorded eqx.error_if predicates hold exactly on the invalid arguments",
+         "exact reals (float underflow of softplus at |raw|>~50 outside the claim); K<=2 quick / 3 thorough; cholesky trusted"),
  "C13": (E2, "the real argument-check wrapper, distribution shape check and constructors are executed on symbolic shapes by a re-execution symbolic executor; z3 proves on every path: raises <=> documented mismatch; MRO closure over all concrete classes; avals of traced methods",
          "stubs: arraylike_to_array/unwrap identity on fake arrays; rank <= 3; Partial index check enumerated concretely"),
  "C16": (E2, "the real fit_to_data / fit_to_variational_target bodies run on symbolic loss histories (all orderings of L distinct reals are one query set), symbolic max_patience / max_epochs / steps; z3 proves the documented stopping epoch, loss bookkeeping and returned parameters on every path; counterexamples replayed on the real loops with real jax/optax",
